@@ -96,3 +96,128 @@ Theorem C11_tol_check_rejects :
     tol_check (a, c, tol, delta, obs) = 1%nat.
 Proof. exact tol_check_rejects. Qed.
 Print Assumptions C11_tol_check_rejects.
+
+(** ** The meaning of [tol] for VECTOR / BLOCK systems  x = A x + c  over Q^n: entries >= 0,
+    max-row-sum norm ||A|| <= a < 1 ([rowsum r <= a] for every row), Kleene iteration
+    [viter A c k] from 0.  [vle x y]: x <= y componentwise; [vle_off t x y]: x <= y + t
+    componentwise; [veq]: == componentwise.  (Model/Tolerance.v; Proofs/Tolerance_vec.v,
+    Proofs/Tolerance_stop.v; satisfiability of the hypotheses: Proofs/Tolerance_examples.v.) *)
+Require Import Fggs.Proofs.Tolerance_vec Fggs.Proofs.Tolerance_stop Fggs.Proofs.Kleene_control.
+
+(** comparison principle: every sub-solution is below every super-solution; hence a fixed point
+    [mu] is unique and is the LEAST pre-fixed point (no sign condition on y) *)
+Theorem C11_vector_fixed_point_least :
+  forall (A : list (list Q)) (c : list Q) (a : Q),
+    Forall (Forall (fun q => 0 <= q)%Q) A -> Forall (fun r => rowsum r <= a)%Q A ->
+    (0 <= a)%Q -> (a < 1)%Q -> length A = length c ->
+    forall mu, veq mu (vstep A c mu) ->
+    forall y, length y = length c -> vle (vstep A c y) y -> vle mu y.
+Proof. exact vfix_least. Qed.
+Print Assumptions C11_vector_fixed_point_least.
+
+Theorem C11_vector_fixed_point_unique :
+  forall (A : list (list Q)) (c : list Q) (a : Q),
+    Forall (Forall (fun q => 0 <= q)%Q) A -> Forall (fun r => rowsum r <= a)%Q A ->
+    (0 <= a)%Q -> (a < 1)%Q -> length A = length c ->
+    forall mu, veq mu (vstep A c mu) -> forall mu', veq mu' (vstep A c mu') -> veq mu mu'.
+Proof. exact vfix_unique. Qed.
+Print Assumptions C11_vector_fixed_point_unique.
+
+(** the code's test [vclose tol x_k x_{k+1}] (every component within tol, absolute, symmetric)
+    at pass k implies  x_k <= mu <= x_k + tol/(1-a)  for the iterate fixed_point returns, and
+    x_{k+1} <= mu <= x_{k+1} + a tol/(1-a)  for the next one -- whatever the magnitude of c.
+    Sharp: for n = 1 the gap is exactly (x_{k+1} - x_k)/(1-a) (Tolerance_proofs.gap). *)
+Theorem C11_vector_stop_bound :
+  forall (A : list (list Q)) (c : list Q) (a : Q),
+    Forall (Forall (fun q => 0 <= q)%Q) A -> Forall (fun r => rowsum r <= a)%Q A ->
+    (0 <= a)%Q -> (a < 1)%Q -> length A = length c -> Forall (fun q => 0 <= q)%Q c ->
+    forall mu, veq mu (vstep A c mu) ->
+    forall k tol, (0 <= tol)%Q -> vclose tol (viter A c k) (viter A c (S k)) = true ->
+      vle (viter A c k) mu /\ vle_off (tol / (1 - a)) mu (viter A c k) /\
+      vle (viter A c (S k)) mu /\ vle_off (a * (tol / (1 - a))) mu (viter A c (S k)).
+Proof. exact vstop_bound_test. Qed.
+Print Assumptions C11_vector_stop_bound.
+
+(** MultiTensor.allclose on block representations (absent block = the semiring's zero [z],
+    compared with [allclose_default]; present blocks entry by entry; equal infinities close, an
+    infinity far from everything else) is the entrywise test on the dense readings, whichever
+    blocks are materialised *)
+Theorem C11_allclose_is_dense_test :
+  forall z tol shapes X Y,
+    xclose tol z z = true -> wf_blocks shapes X = true -> wf_blocks shapes Y = true ->
+    mt_close z tol X Y = forall2b (xclose tol) (dense z shapes X) (dense z shapes Y).
+Proof. exact mt_close_dense. Qed.
+Print Assumptions C11_allclose_is_dense_test.
+
+(** termination: the test fires at every pass K with a^K C <= tol (C bounds the entries of c) ... *)
+Theorem C11_vector_test_fires :
+  forall (A : list (list Q)) (c : list Q) (a : Q),
+    Forall (Forall (fun q => 0 <= q)%Q) A -> Forall (fun r => rowsum r <= a)%Q A ->
+    (0 <= a)%Q -> length A = length c -> Forall (fun q => 0 <= q)%Q c ->
+    forall C K tol, (0 <= C)%Q -> Forall (fun q => q <= C)%Q c -> (qpow a K * C <= tol)%Q ->
+      vclose tol (viter A c K) (viter A c (S K)) = true.
+Proof. exact vtest_fires. Qed.
+Print Assumptions C11_vector_test_fires.
+
+(** ... in particular for the explicit K = pass_bound a tol C = ceil((C - tol)/(tol (1 - a))) *)
+Theorem C11_pass_bound_ok :
+  forall a tol C, (0 <= a)%Q -> (a < 1)%Q -> (0 < tol)%Q -> (0 <= C)%Q ->
+    (qpow a (pass_bound a tol C) * C <= tol)%Q.
+Proof. exact pass_bound_ok. Qed.
+Print Assumptions C11_pass_bound_ok.
+
+(** the loop of fixed_point (the model of C02: [fixed_point_loop]) run on x |-> A x + c from 0
+    with the code's test: with kmax >= K it does not warn, stops at a pass k <= K and returns
+    x_k with  x_k <= mu <= x_k + tol/(1-a) *)
+Theorem C11_vector_fixed_point_run :
+  forall (A : list (list Q)) (c : list Q) (a : Q),
+    Forall (Forall (fun q => 0 <= q)%Q) A -> Forall (fun r => rowsum r <= a)%Q A ->
+    (0 <= a)%Q -> (a < 1)%Q -> length A = length c -> Forall (fun q => 0 <= q)%Q c ->
+    forall mu, veq mu (vstep A c mu) ->
+    forall C K tol kmax,
+      (0 <= C)%Q -> Forall (fun q => q <= C)%Q c -> (qpow a K * C <= tol)%Q -> (K <= kmax)%nat ->
+      exists k, (k <= K)%nat /\
+        fixed_point_loop (vstep A c) (vclose tol) kmax (vzero (length c))
+          = Some (viter A c k, viter A c (S k), false) /\
+        vle (viter A c k) mu /\ vle_off (tol / (1 - a)) mu (viter A c k).
+Proof. exact vfixed_point_run. Qed.
+Print Assumptions C11_vector_fixed_point_run.
+
+(** the same loop on MultiTensor-like block representations, started from the EMPTY MultiTensor
+    (every block absent) with MultiTensor.allclose as the test: for any implementation [FR] of
+    x |-> A x + c on representations, whichever blocks it materialises *)
+Theorem C11_block_fixed_point_run :
+  forall (A : list (list Q)) (c : list Q) (a : Q),
+    Forall (Forall (fun q => 0 <= q)%Q) A -> Forall (fun r => rowsum r <= a)%Q A ->
+    (0 <= a)%Q -> (a < 1)%Q -> length A = length c -> Forall (fun q => 0 <= q)%Q c ->
+    forall mu, veq mu (vstep A c mu) ->
+    forall shapes (FR : list block -> list block) C K tol kmax,
+      fold_right Nat.add 0%nat shapes = length c ->
+      (forall X x, represents shapes X x -> represents shapes (FR X) (vstep A c x)) ->
+      (0 <= C)%Q -> Forall (fun q => q <= C)%Q c -> (qpow a K * C <= tol)%Q -> (K <= kmax)%nat ->
+      exists k Y0 Y1, (k <= K)%nat /\
+        fixed_point_loop FR (mt_close (XFin 0) tol) kmax (repeat None (length shapes)) = Some (Y0, Y1, false) /\
+        represents shapes Y0 (viter A c k) /\ represents shapes Y1 (viter A c (S k)) /\
+        vle (viter A c k) mu /\ vle_off (tol / (1 - a)) mu (viter A c k).
+Proof. exact mt_fixed_point_run. Qed.
+Print Assumptions C11_block_fixed_point_run.
+
+(** the check function [vtol_check] (a = mnorm A computed, mu verified to be a fixed point)
+    accepts the exact iterate at which the loop stops and rejects every vector with a component
+    further below the fixed point than the bound plus the rounding allowance *)
+Theorem C11_vtol_check_sound :
+  forall A c mu tol k,
+    Forall (Forall (fun q => 0 <= q)%Q) A -> Forall (fun q => 0 <= q)%Q c -> (0 <= tol)%Q -> (mnorm A < 1)%Q ->
+    length A = length c -> veq mu (vstep A c mu) ->
+    vclose tol (viter A c k) (viter A c (S k)) = true ->
+    vtol_check (A, c, mu, tol, 0%Q, viter A c k) = 0%nat.
+Proof. exact vtol_check_sound. Qed.
+Print Assumptions C11_vtol_check_sound.
+
+Theorem C11_vtol_check_rejects :
+  forall A c mu tol delta obs,
+    vguard A c mu tol obs = true -> veq mu (vstep A c mu) ->
+    Exists (fun mo => snd mo < fst mo - tol / (1 - mnorm A) - delta)%Q (combine mu obs) ->
+    vtol_check (A, c, mu, tol, delta, obs) = 1%nat.
+Proof. exact vtol_check_rejects. Qed.
+Print Assumptions C11_vtol_check_rejects.
